@@ -250,6 +250,17 @@ def check_layout(res, L, rng, tag, tier, jit, count):
                     expP = expP * Mi
                 if not np.array_equal(Pi.value, expP.value):
                     res.violate('integer M**k is not the k-fold product', dict(inp, k=k), Pi.value.tolist(), expP.value.tolist(), dict(site, op='pow-int'))
+            if k < 0 and n <= 5 and not rep.startswith('err') and max(abs(x) for x in v) <= 4:
+                # (n <= 5: beyond that inv() goes through numba's linalg, which needs floats -- the documented scope, as for `inv` above)
+                # an integer-dtype multivector raised to a negative power is the product of its (floating-point) inverse;
+                # the unscaled integer coefficients v = ex / sc are used, so (v)**k = (ex)**k / sc**k
+                Mi = MultiVector(L, np.array([int(x) for x in v], dtype=np.int64))
+                Pi = Mi ** k
+                res.count('pow_neg_intdtype')
+                unsc = Fraction(sc) ** (-k)
+                if not close(Pi.value, [x * unsc for x in Pe], ptol * unsc):
+                    res.violate('M**k for an integer-dtype M and k<0 is not the |k|-fold product of M.inv()', dict(inp, k=k, M=[int(x) for x in v], dtype=str(Mi.value.dtype)),
+                                Pi.value.tolist(), [core.fstr(x * unsc) for x in Pe], dict(site, op='pow-int-neg'))
             if k == 0 and not close(P.value, one, 0):
                 res.violate('M**0 is not 1', inp, P.value.tolist(), 1, dict(site, op='pow0'))
         except Exception as e:
